@@ -30,4 +30,7 @@ TrapHandlerOutlivesGrace == ~(\E c \in Conns : pc[M(c)] = "u.handler" /\ pc[T] =
 TrapShutdownMidResponse == ~(\E c \in Conns : pc[W(c)] = "wl.send" /\ pc[D] = "sd.recvcancel")
 \* C16: Shutdown while the connect hook is running / failing
 TrapShutdownDuringConnect == ~(\E c \in Conns : pc[M(c)] = "u.connect" /\ pc[D] = "sd.wait!")
+\* C16: the owner closed the listener itself; Shutdown is called while a handler runs / while the connection is idle
+TrapShutdownAfterOwnerClose == ~(\E c \in Conns : pc[D] = "sd.close" /\ listener = "closed" /\ pc[M(c)] = "u.handler")
+TrapShutdownAfterOwnerCloseIdle == ~(\E c \in Conns : pc[D] = "sd.close" /\ listener = "closed" /\ pc[M(c)] = "recv.select!")
 =============================================================================
